@@ -40,7 +40,7 @@ class Contract:
                  name=None, notes='', trusted=False, body=None, stop_at_loop_exit=None, end_ensures=None,
                  calls=None, level='P', ghost=None, yields=None, rely=None, inline_src=None,
                  skip_frame=False, at_exit=(), fields=None, ghost_requires=(), ghost_sets=None,
-                 start_after_loop=None, stop_after_loop=None, heap_consts=False, solver_ms=0, yield_type=None, yield_counter=None):
+                 start_after_loop=None, stop_after_loop=None, heap_consts=False, solver_ms=0, yield_type=None, yield_counter=None, stop_before_loop=None):
         self.target = target
         self.file, self.qualname = target.split('::') if '::' in target else (None, target)
         self.params = dict(params or {})
@@ -80,6 +80,7 @@ class Contract:
         self.yield_counter = yield_counter    # ghost global incremented at every yield
         self.start_after_loop = start_after_loop
         self.stop_after_loop = stop_after_loop
+        self.stop_before_loop = stop_before_loop
         self.end_ensures = [end_ensures] if isinstance(end_ensures, str) else list(end_ensures or [])   # ghost global name -> expression (over old state) it is set to by a call
 
 
